@@ -43,10 +43,22 @@ func main() {
 	list := flag.Bool("list", false, "print every obligation")
 	noEvidence := flag.Bool("no-evidence", false, "do not write evidence (used for mutant runs)")
 	explain := flag.String("explain", "", "re-run the obligation recorded in a violation file")
+	refactor := flag.String("refactor", "", "apply a behaviour-preserving transformation (rename-locals|shift-lines|swap-operands) to the scratch copy given by -repo and exit")
 	mutOnly := flag.Bool("mutants", false, "only run the mutant catalogue of the property and report checker sensitivity")
 	flag.Parse()
 	seed, _ := strconv.ParseInt(envOr("VERIF_SEED", "0"), 10, 64)
 
+	if *refactor != "" {
+		if strings.HasPrefix(*repo, "/repo") {
+			fmt.Println("refusing to transform /repo; give a scratch copy")
+			os.Exit(2)
+		}
+		if err := refactorTree(*repo, *refactor); err != nil {
+			fmt.Println(err)
+			os.Exit(1)
+		}
+		os.Exit(0)
+	}
 	if *explain != "" {
 		os.Exit(doExplain(*explain, *repo, *root))
 	}
